@@ -126,7 +126,7 @@ def run_bundle(prog, run, files, floors=None):
                     if not isinstance(c, ast.Call):
                         continue
                     fn = c.func
-                    ok = (isinstance(fn, ast.Name) and fn.id in ("next", "len", "int", "str", "iter", "tuple", "list", "cast")) or (
+                    ok = (isinstance(fn, ast.Name) and fn.id in ("next", "len", "int", "str", "iter", "tuple", "list", "cast", "type", "id", "hash", "repr", "isinstance", "getattr", "frozenset", "set", "dict", "min", "max", "sorted")) or (
                         isinstance(fn, ast.Attribute) and fn.attr in PURE_METHODS and not (isinstance(fn.value, ast.Name) and fn.value.id == "self"))
                     if not ok:
                         run.report(r, "%s:%s:wide-sentinel-handler(%s)" % (f.module.name, f.qualname, " ".join(ast.unparse(fn).split())), f.where(c),
